@@ -50,6 +50,20 @@ Theorem C20_accept_loop : forall id arr cancelled p closed,
 Proof. intros id arr c p cl. apply accept_reversed_sound. Qed.
 Print Assumptions C20_accept_loop.
 
+(* the accept goroutine inside an attempt is that loop: feeding it connections
+   one by one (no stalled greeting, context not done) leaves it holding the
+   connection accept_reversed returns, having closed what accept_reversed closes *)
+Theorem C20_accept_loop_in_attempt : forall id l s,
+  no_stall l -> as_acc s = AsWaiting -> as_ctx_done s = false ->
+  exists s', run_attempt_from id (Running s) (arrive_all l) = Running s' /\
+    as_closed s' = as_closed s ++ snd (accept_reversed id false (as_conns l)) /\
+    as_acc s' = match fst (accept_reversed id false (as_conns l)) with
+                | AccConn p => AsDone (AccConn p)
+                | _ => AsWaiting
+                end.
+Proof. exact acceptor_agrees. Qed.
+Print Assumptions C20_accept_loop_in_attempt.
+
 (* ---- C20_only_matching ----------------------------------------------------- *)
 
 (* Standard mode, every interleaving of arrivals, listener failure, context
@@ -109,6 +123,14 @@ Theorem C20_broker_failure_proxied : forall id b m hello,
   proxy_attempt id b (PrFail m) hello = mkOut (Failed (AeProxyRefused m)) [b].
 Proof. exact proxy_broker_failure. Qed.
 Print Assumptions C20_broker_failure_proxied.
+
+(* ... and with a single broker Dial's caller gets exactly that error *)
+Theorem C20_broker_failure_reaches_caller : forall sequential id s1 m s2 dsched,
+  forallb (quiet_ev id) s1 = true ->
+  dial_full sequential [(id, s1 ++ SPickReply (RFail m) :: s2)] (DResult 0 :: dsched)
+  = DDone (DAllFailed [AeBroker m]) 1 [0%nat].
+Proof. exact dial_reports_broker_failure. Qed.
+Print Assumptions C20_broker_failure_reaches_caller.
 
 (* ---- C20_single_winner ----------------------------------------------------- *)
 
